@@ -118,7 +118,7 @@ class ASTCodeGenerator(object):
                 self._write(', ')
         _first = [True]
 
-        def write_args(args, defaults):
+        def write_args(args, defaults, posonly_count=0):
             no_default_count = len(args) - len(defaults)
             for i, arg in enumerate(args):
                 write_possible_comma()
@@ -127,8 +127,13 @@ class ASTCodeGenerator(object):
                 if default_idx >= 0 and defaults[default_idx] is not None:
                     self._write('=')
                     self.visit(defaults[i - no_default_count])
+                if i + 1 == posonly_count:
+                    self._write(', /')
 
-        write_args(node.args, node.defaults)
+        # Python >= 3.8: positional-only parameters share `defaults` with args
+        posonlyargs = list(getattr(node, 'posonlyargs', None) or [])
+        write_args(posonlyargs + list(node.args), node.defaults,
+                   len(posonlyargs))
         if getattr(node, 'vararg', None):
             write_possible_comma()
             self._write('*')
@@ -136,6 +141,10 @@ class ASTCodeGenerator(object):
                 self._write(node.vararg)
             else:
                 self.visit(node.vararg)
+        elif getattr(node, 'kwonlyargs', None):
+            # keyword-only parameters without *args need the bare `*`
+            write_possible_comma()
+            self._write('*')
         if getattr(node, 'kwonlyargs', None):
             write_args(node.kwonlyargs, node.kw_defaults)
         if getattr(node, 'kwarg', None):
